@@ -4,7 +4,9 @@
 /*  H4  time-slice injection: the length of every quantum is taken     */
 /*      from CHIBI_VERIF_SCHED = seed:<S>:<maxslice> | list:<a,b,c,..>[:<default>] */
 /*      and a deadlock detector that turns "nothing can ever run" into */
-/*      an event (log line + exit code 86) instead of a hang.          */
+/*      an event (log line + exit code 86) instead of a hang;          */
+/*      CHIBI_VERIF_MAXSLICES=<n> ends the process with exit code 87   */
+/*      after n time slices (a logical step budget).                   */
 
 #include <stdlib.h>
 #include <stdint.h>
@@ -16,7 +18,7 @@ static int verif_sched_mode = -1;    /* 0 off, 1 seed, 2 list */
 static uint64_t verif_sched_state;
 static long verif_sched_max = 500, verif_sched_default = 0;
 static long *verif_sched_list, verif_sched_list_len, verif_sched_list_pos;
-static long verif_sched_slices, verif_sched_switches, verif_dl_checks;
+static long verif_sched_slices, verif_sched_switches, verif_dl_checks, verif_sched_budget;
 static uint64_t verif_sched_hash = 1469598103934665603ULL;
 static void *verif_sched_last;
 #define VERIF_MAX_THREADS 64
@@ -70,6 +72,13 @@ static sexp_sint_t verif_slice (sexp ctx, sexp_sint_t fuel) {
     res = verif_sched_default;
   }
   verif_sched_slices++;
+  /* a budget in logical steps (time slices), so that "never finishes" is decided without a wall clock */
+  if (verif_sched_budget == 0) verif_sched_budget = getenv("CHIBI_VERIF_MAXSLICES") ? atol(getenv("CHIBI_VERIF_MAXSLICES")) : -1;
+  if (verif_sched_budget > 0 && verif_sched_slices > verif_sched_budget) {
+    sexp_verif_logf("STEP-BUDGET slices=%ld switches=%ld\n", verif_sched_slices, verif_sched_switches);
+    verif_sched_report();
+    _exit(87);
+  }
   if ((void*)ctx != verif_sched_last) {
     verif_sched_last = (void*)ctx;
     verif_sched_switches++;
